@@ -20,7 +20,9 @@ RULE = ("Same generated pipelines + schedules as C02 (plus slice), on the harnes
         "finish phase (all consumers complete, virtual time runs on) no emit is pending unless a "
         "starved zip input blocks it. Threaded part: real background loop, blocking emit in a "
         "worker thread; the call must not return before the consumer future is resolved (order in "
-        "a lock-protected log). Non-trivial: some emit stayed pending across >= 1 action and "
+        "a lock-protected log). Part fanout: one emit reaches the consumers several times (partition / "
+        "sliding_window -> flatten, or several branches), completions in any order, same oracles. "
+        "Non-trivial: some emit stayed pending across >= 1 action and "
         "later completed, or a bound was reached (= n).")
 ASSUMPTIONS = c02.ASSUMPTIONS + ["'accepted' = the emit's awaitable completed (zip documents no "
                                  "other definition)"]
@@ -242,6 +244,44 @@ def join_case(draw, tier="quick"):
             "actions": [a for stp in steps for a in stp][:50]}
 
 
+
+@st.composite
+def fanout_case(draw, tier="quick"):
+    """focused shape: one emit reaches the asynchronous consumer several times - entry ->
+    partition(n) | sliding_window(n) -> flatten -> [map] -> consumer, or entry -> several
+    branches -> consumers; completions in any order (the first call's consumer may well finish
+    last): the emit has to wait for *all* of them"""
+    nodes = [{"k": "entry", "u": [], "p": {}, "t": "E"}]
+    cm = {}
+    if draw(st.integers(0, 3)) > 0:
+        n = draw(st.integers(2, 4))
+        if draw(st.booleans()):
+            nodes.append({"k": "partition", "u": [0], "p": {"n": n, "key": None},
+                          "t": ["H", ["E"] * n]})
+        else:
+            partial = draw(st.booleans())
+            nodes.append({"k": "sliding_window", "u": [0], "p": {"n": n, "partial": partial},
+                          "t": ["L", "E"] if partial else ["H", ["E"] * n]})
+        nodes.append({"k": "flatten", "u": [1], "p": {}, "t": "E"})
+        if draw(st.booleans()):
+            nodes.append({"k": "map", "u": [2], "p": {"f": "inc"}, "t": "E"})
+        tails = [len(nodes) - 1] * draw(st.sampled_from([1, 1, 2]))
+    else:
+        for _ in range(draw(st.integers(2, 4))):
+            if draw(st.booleans()):
+                nodes.append({"k": "map", "u": [0], "p": {"f": "inc"}, "t": "E"})
+        tails = [i for i in range(1, len(nodes))] + [0] * draw(st.integers(1, 2))
+    for t in tails:
+        nodes.append({"k": "sink", "u": [t], "p": {}, "t": None})
+        cm[str(len(nodes) - 1)] = draw(st.sampled_from(["fut", "coro", "fut"]))
+    spec = {"nodes": nodes, "fb": None}
+    emit = st.tuples(st.sampled_from(["emit", "emit", "pemit"]), st.just(0), st.integers(0, 5))
+    fin = st.tuples(st.just("fin"), st.integers(0, 2), st.integers(0, 3))
+    late = st.tuples(st.just("fin"), st.integers(0, 2), st.integers(1, 3))   # not the oldest
+    steps = draw(st.lists(st.one_of(emit, emit, fin, late, late), min_size=4, max_size=24))
+    return {"spec": spec, "cmodes": cm, "actions": [list(a) for a in steps]}
+
+
 # ---- threaded variant ---------------------------------------------------------------------
 @st.composite
 def threaded_case(draw, tier="quick"):
@@ -362,5 +402,6 @@ def execute_threaded(case):
 
 PARTS = [Part("schedules", case_strategy, execute, quick=1600, thorough=8000),
          Part("joins", join_case, execute, quick=600, thorough=4000),
+         Part("fanout", fanout_case, execute, quick=600, thorough=4000),
          Part("threaded", threaded_case, execute_threaded, quick=32, thorough=80, shards=4,
               shrink_quick=False, quick_shards=4, quick_factor=1)]
